@@ -88,3 +88,30 @@ Proof.
   split; [vm_compute; reflexivity|]. split; [vm_compute; reflexivity|].
   eexists. eexists. repeat split; vm_compute; reflexivity.
 Qed.
+
+(* C02, known finding: enum Status { option OLD_UNSPECIFIED  option ACTIVE } - the first option ends
+   in UNSPECIFIED under a name of its own and is taken as the zero value: STATUS_OLD_UNSPECIFIED = 0,
+   STATUS_ACTIVE = 1.  There is no STATUS_UNSPECIFIED and the declared options are numbered from 0:
+   the package is valid, compiles, and its output violates the contract of the property text
+   (package_contract_full ... false) *)
+Definition w_named_zero : bundle :=
+  [BJ (mkJfile foo_v1 (b "a") [] [EEnum (mkEnum (b "Status") [] [b "OLD_UNSPECIFIED"; b "ACTIVE"])])].
+
+Lemma named_zero_violates :
+  valid w_named_zero = true /\
+  exists D, compile w_named_zero (b "foo.v1") = Ok D /\
+    map en_vals (flat_map fl_enums D) = [[(b "STATUS_OLD_UNSPECIFIED", 0); (b "STATUS_ACTIVE", 1)]] /\
+    ~ package_contract_full to_snake to_camel to_screaming_snake false w_named_zero (b "foo.v1") D.
+Proof.
+  split; [vm_compute; reflexivity|]. eexists. split; [vm_compute; reflexivity|].
+  split; [vm_compute; reflexivity|].
+  intros [Hall _].
+  destruct (Hall _ (or_introl eq_refl) eq_refl) as ((df & Hd & Hm) & _).
+  destruct Hd as [<-|[]].
+  destruct Hm as (_ & _ & _ & _ & _ & He).
+  specialize (He _ (or_introl eq_refl)). cbn [element_ok nested_ok] in He.
+  destruct He as (de & Hin & _ & Hok).
+  destruct Hin as [<-|[]].
+  destruct (Hok (fun E => match Bool.diff_false_true E with end)) as (H0 & _).
+  vm_compute in H0. discriminate H0.
+Qed.
